@@ -615,9 +615,118 @@ func genCfg(repo string) {
 			ma == "{returnjson.Marshal(pair.String())}" && st == "{returnstring(pair)}"
 	}
 	dgUpd, dgWrites := devgasWithdrawerRule(repo)
-	fmt.Printf("Definition current_cfg : cfg := {| c_rid := %s; c_tf_keeps_bank_md := %s; c_pair_json_id := %s; c_dg_upd := %s |}.\n", rid, CoqBool(keeps), CoqBool(pairID), dgUpd)
+	epVal, epConds, epSwallow := epochsValidateRule(repo)
+	fmt.Printf("Definition current_cfg : cfg := {| c_rid := %s; c_tf_keeps_bank_md := %s; c_pair_json_id := %s; c_dg_upd := %s; c_ep_val := %s; c_ep_swallow := %s |}.\n",
+		rid, CoqBool(keeps), CoqBool(pairID), dgUpd, epVal, CoqBool(epSwallow))
+	fmt.Printf("(* EpochInfo.Validate rejects when: %s *)\n", strings.ReplaceAll(strings.Join(epConds, " | "), "*)", "* )"))
 	fmt.Printf("(* writes to FeeShare.WithdrawerAddress in x/devgas/v1/{keeper,types}: %s *)\n", strings.ReplaceAll(strings.Join(dgWrites, " | "), "*)", "* )"))
 	fmt.Printf("(* unsafeGenesisInsertDenom: %s *)\n", strings.ReplaceAll(src, "*)", "* )"))
+}
+
+// epochsValidateRule: the SET of conditions under which EpochInfo.Validate returns an error (if statements and
+// tagless switch cases, receiver renamed to e, order irrelevant), and whether x/epochs' AppModule.InitGenesis
+// discards the error of InitGenesis (blank assignment / expression statement).
+func epochsValidateRule(repo string) (string, []string, bool) {
+	var conds []string
+	for _, fl := range ParseDir(repo + "/x/epochs/types") {
+		for _, d := range fl.F.Decls {
+			fd, ok := d.(*ast.FuncDecl)
+			if !ok || fd.Body == nil || fd.Recv == nil || fd.Name.Name != "Validate" || !strings.HasSuffix(Nospace(fd.Recv.List[0].Type), "EpochInfo") {
+				continue
+			}
+			recv := "e"
+			if len(fd.Recv.List[0].Names) > 0 {
+				recv = fd.Recv.List[0].Names[0].Name
+			}
+			norm := func(e ast.Expr) string {
+				t := regexp.MustCompile(`\b`+regexp.QuoteMeta(recv)+`\.`).ReplaceAllString(Src(e), "e.")
+				t = strings.ReplaceAll(t, " ", "")
+				t = strings.ReplaceAll(t, "len(e.Identifier)==0", `e.Identifier==""`)
+				return t
+			}
+			returnsErr := func(b *ast.BlockStmt) bool {
+				for _, st := range b.List {
+					if r, ok := st.(*ast.ReturnStmt); ok && len(r.Results) == 1 && Nospace(r.Results[0]) != "nil" {
+						return true
+					}
+				}
+				return false
+			}
+			ast.Inspect(fd.Body, func(n ast.Node) bool {
+				switch x := n.(type) {
+				case *ast.IfStmt:
+					if returnsErr(x.Body) {
+						conds = append(conds, norm(x.Cond))
+					}
+				case *ast.SwitchStmt:
+					if x.Tag == nil {
+						for _, c := range x.Body.List {
+							cc := c.(*ast.CaseClause)
+							if returnsErr(&ast.BlockStmt{List: cc.Body}) {
+								for _, e := range cc.List {
+									conds = append(conds, norm(e))
+								}
+							}
+						}
+					}
+				}
+				return true
+			})
+		}
+	}
+	sort.Strings(conds)
+	base := []string{`e.CurrentEpochStartHeight<0`, `e.Duration==0`, `e.Identifier==""`}
+	pos := map[string]bool{"e.EpochCountingStarted&&e.CurrentEpochStartHeight==0": true, "e.CurrentEpochStartHeight==0&&e.EpochCountingStarted": true}
+	rule := "EpValUnknown"
+	switch {
+	case strings.Join(conds, "|") == strings.Join(base, "|"):
+		rule = "EpValNonneg"
+	case len(conds) == 4:
+		var rest []string
+		extra := ""
+		for _, c := range conds {
+			if pos[c] {
+				extra = c
+			} else {
+				rest = append(rest, c)
+			}
+		}
+		if extra != "" && strings.Join(rest, "|") == strings.Join(base, "|") {
+			rule = "EpValPositiveWhenStarted"
+		}
+	}
+	swallow := false
+	for _, fl := range ParseDir(repo + "/x/epochs") {
+		for _, d := range fl.F.Decls {
+			fd, ok := d.(*ast.FuncDecl)
+			if !ok || fd.Body == nil || fd.Recv == nil || fd.Name.Name != "InitGenesis" {
+				continue
+			}
+			isCall := func(e ast.Expr) bool {
+				c, ok := e.(*ast.CallExpr)
+				return ok && strings.HasSuffix(Nospace(c.Fun), "InitGenesis")
+			}
+			for _, st := range fd.Body.List {
+				switch x := st.(type) {
+				case *ast.ExprStmt:
+					if isCall(x.X) {
+						swallow = true
+					}
+				case *ast.AssignStmt:
+					if len(x.Rhs) == 1 && isCall(x.Rhs[0]) {
+						blank := true
+						for _, l := range x.Lhs {
+							if id, ok := l.(*ast.Ident); !ok || id.Name != "_" {
+								blank = false
+							}
+						}
+						swallow = blank
+					}
+				}
+			}
+		}
+	}
+	return rule, conds, swallow
 }
 
 // devgasWithdrawerRule: every place the x/devgas code writes the WithdrawerAddress of a FeeShare (assignments
